@@ -143,8 +143,10 @@ def run_program(case, stop_at_first=True):
         except Exception as ex:  # noqa: BLE001
             if not R.exc_in_library(ex):
                 raise
-            findings.append((f'{P}/op-raises/{op[0]}/{R.exc_sig(ex)}', f'op {i} {op[0]}: {type(ex).__name__}: {ex}'[:400]))
-            # the transaction was aborted by the exception: the MDIB must still satisfy all invariants
+            # C02 does not state that an operation succeeds; a raising operation is an aborted transaction and the
+            # MDIB must still satisfy every invariant (checked below). Counted, and left to C03.
+            stats['raised'] = stats.get('raised', 0) + 1
+            stats.setdefault('raised_sigs', set()).add(R.exc_sig(ex))
             info = {'op': op[0], 'skipped': False, 'touched': set(), 'created': set(), 'deleted': set()}
         if not info['skipped']:
             stats['applied'] += 1
@@ -166,6 +168,8 @@ def case_fn(ctx, case):
     ctx.case(case, nontrivial, 'prog', classes=tuple(MP.program_classes(case['prog'])) + (
         ('recreate-applied',) if stats['recreate'] else ()) + (('multi>=2-applied',) if stats['multi2'] else ()))
     ctx.count('ops_applied', stats['applied'])
+    for sig in stats.get('raised_sigs', ()):
+        ctx.count(f'op-raised/{sig}')
     return findings
 
 
